@@ -450,7 +450,7 @@ def orders_for(rng, names, tier):
 
 
 def generated_directories(rng, tier):
-    ndirs = 120 if tier == "quick" else 500
+    ndirs = 100 if tier == "quick" else 500
     for k in range(ndirs):
         dom = gen_domain(rng)
         n = rng.choice([1, 2, 2, 3, 3, 4])
@@ -603,7 +603,8 @@ def build_jobs(rng, tier):
                 continue        # both forced orders cover the real one
             # structured correspondence (texts parsed by the model's parser): the first two orders of a directory
             # (every third directory of the exhaustive scope); not for shipped fixtures (files of ~10 kB)
-            job["structured"] = bool(d["dfiles"]) and d["kind"] != "fixture" and oi <= 1 and (
+            job["structured"] = bool(d["dfiles"]) and d["kind"] != "fixture" and (
+                oi <= 1 if tier == "thorough" or d["kind"] == "witness" else oi == min(1, len(orders) - 1)) and (
                 d["kind"] != "exhaustive" or int(d["case"][1:]) % 3 == 0)
             jobs.append(job)
     return jobs
@@ -873,7 +874,7 @@ def run(args):
                    "shipped multi-agent fixture directories and hand-made witness directories (repaired findings D18/D27, files that differ "
                    "in :requirements / names) are included; thorough adds a small scope enumerated completely: all 576 ways to give the two "
                    "actions, an unused predicate, a constant and an unused type of a tiny domain to two agents and all 729 ways to give two "
-                   "facts, a fluent value, two goal literals and a numeric goal to them, each under both orders.  Each job yields a domain case and a problem case; for the first two orders of every non-fixture directory (every "
+                   "facts, a fluent value, two goal literals and a numeric goal to them, each under both orders.  Each job yields a domain case and a problem case; for one order (thorough: the first two orders) of every non-fixture directory (every "
                    "third directory of the exhaustive scope) also a structured case: the agent file TEXTS are parsed by the model's domain parser, "
                    "combined, exported by C08's exporter model and parsed again inside Coq (3 verdict units: combine / wf / reparse).  Non-trivial: "
                    ">= 2 parsed files with a name shared by two files and a name private to one; distinct by input hash.")
